@@ -374,3 +374,30 @@ async fn run_node_async(wrap: Wrap, hist: &[Op], clock: u64, want_sample: bool) 
     out.book = rb;
     out
 }
+
+/// Applies `op` to one store and keeps that store's token book up to date
+/// (used by the parts that run a wrapper without a reference next to it).
+pub async fn apply_tracked(store: &dyn object_store::ObjectStore, book: &mut Book, op: &Op) -> OpOut {
+    let out = apply(store, book, op).await;
+    if out.class != Class::Ok {
+        return out;
+    }
+    let commit_key: Option<u8> = match op {
+        Op::Put { key, .. } => Some(*key),
+        Op::Multi { key, abort: false, .. } => Some(*key),
+        Op::Copy { to, .. } => Some(*to),
+        Op::Rename { from, to, .. } if from != to => Some(*to),
+        _ => None,
+    };
+    if let Some(k) = commit_key
+        && let Ok(c) = observe(store, k).await
+    {
+        book.commit(k, c);
+    }
+    match op {
+        Op::Rename { from, to, .. } if from != to => book.remove(*from),
+        Op::Delete { key } => book.remove(*key),
+        _ => {}
+    }
+    out
+}
